@@ -190,6 +190,123 @@ pub fn run_deser(ctx: &mut Ctx) -> RunResult {
     Ok(())
 }
 
+/// One input call of a session instance: byte range, outputs (events and decoded outbound
+/// messages except Acknowledgements, as strings), error if the call failed.
+#[derive(Debug, Clone)]
+pub struct CallRec {
+    pub start: usize,
+    pub end: usize,
+    pub outs: Vec<String>,
+    pub err: Option<String>,
+}
+
+/// Compare session instances.  results[1] must be the byte-by-byte instance (the ruler).
+pub fn compare_sessions(ctx: &mut Ctx, oracle: &str, results: &[(&'static str, Vec<CallRec>)]) -> RunResult {
+    let prop = ctx.prop;
+    let ruler = &results[1].1;
+    // ruler: outputs stamped with the offset of the byte that produced them; error offset
+    let mut stamped: Vec<(usize, &String)> = Vec::new();
+    let mut err_at: Option<(usize, &String)> = None;
+    for c in ruler.iter() {
+        for o in c.outs.iter() {
+            stamped.push((c.start, o));
+        }
+        if let Some(e) = &c.err {
+            err_at = Some((c.start, e));
+            break;
+        }
+    }
+    if err_at.is_some() {
+        ctx.probe("c15.session_stream_ends_in_error");
+    }
+    for (name, calls) in results.iter() {
+        if *name == results[1].0 {
+            continue;
+        }
+        let mut flat: Vec<&String> = Vec::new();
+        let mut failed: Option<&CallRec> = None;
+        for c in calls.iter() {
+            if c.err.is_some() {
+                failed = Some(c);
+                break;
+            }
+            flat.extend(c.outs.iter());
+        }
+        match (err_at, failed) {
+            (None, None) => {
+                let want: Vec<&String> = stamped.iter().map(|(_, o)| *o).collect();
+                if flat != want {
+                    let i = flat.iter().zip(want.iter()).position(|(a, b)| a != b).unwrap_or(flat.len().min(want.len()));
+                    return Err(Violation::new(
+                        format!("{}/{}/output-differs", prop, oracle),
+                        format!("partition {} and byte-by-byte disagree at output #{}: {:?} vs {:?} ({} vs {} outputs)", name, i, flat.get(i), want.get(i), flat.len(), want.len()),
+                    ));
+                }
+            }
+            (Some((e_off, e)), Some(c)) => {
+                if !(c.start <= e_off && e_off < c.end.max(c.start + 1)) {
+                    return Err(Violation::new(
+                        format!("{}/{}/error-position-differs", prop, oracle),
+                        format!("byte-by-byte fails at byte {} ({}), partition {} fails in the call covering bytes {}..{} ({:?})", e_off, e, name, c.start, c.end, c.err),
+                    ));
+                }
+                // everything delivered by earlier calls must equal the ruler's outputs for those bytes
+                let want: Vec<&String> = stamped.iter().filter(|(off, _)| *off < c.start).map(|(_, o)| *o).collect();
+                if flat != want {
+                    return Err(Violation::new(
+                        format!("{}/{}/output-before-error-differs", prop, oracle),
+                        format!("partition {} delivered {} outputs before its failing call, byte-by-byte delivered {} for the same bytes", name, flat.len(), want.len()),
+                    ));
+                }
+            }
+            (Some((e_off, e)), None) => {
+                return Err(Violation::new(
+                    format!("{}/{}/error-only-in-some-partitions", prop, oracle),
+                    format!("byte-by-byte fails at byte {} ({}) but partition {} processed the whole stream without error", e_off, e, name),
+                ));
+            }
+            (None, Some(c)) => {
+                return Err(Violation::new(
+                    format!("{}/{}/error-only-in-some-partitions", prop, oracle),
+                    format!("partition {} fails in the call covering bytes {}..{} ({:?}) but byte-by-byte processed the whole stream without error", name, c.start, c.end, c.err),
+                ));
+            }
+        }
+    }
+    Ok(())
+}
+
+/// Canonical rendering of a library AMF0 value (object properties sorted by name: the Debug
+/// rendering of a HashMap depends on the process-random hasher).
+pub fn canon_amf(v: &rml_amf0::Amf0Value) -> String {
+    use rml_amf0::Amf0Value as A;
+    match v {
+        A::Number(n) => format!("Num({:016x})", n.to_bits()),
+        A::Boolean(b) => format!("Bool({})", b),
+        A::Utf8String(s) => format!("Str({:?})", s),
+        A::Null => "Null".to_string(),
+        A::Undefined => "Undef".to_string(),
+        A::StrictArray(items) => format!("Arr[{}]", items.iter().map(canon_amf).collect::<Vec<_>>().join(",")),
+        A::Object(props) => {
+            let mut keys: Vec<&String> = props.keys().collect();
+            keys.sort();
+            format!("Obj{{{}}}", keys.iter().map(|k| format!("{:?}:{}", k, canon_amf(&props[*k]))).collect::<Vec<_>>().join(","))
+        }
+    }
+}
+
+pub fn canon_amf_list(v: &[rml_amf0::Amf0Value]) -> String {
+    v.iter().map(canon_amf).collect::<Vec<_>>().join(",")
+}
+
+pub fn msg_string(m: &RefMsg) -> String {
+    format!("pkt type={} msid={} ts={} len={} hash={:016x}", m.type_id, m.msid, m.ts, m.payload.len(), crate::engine::fnv_bytes(crate::engine::fnv_new(), &m.payload))
+}
+
 pub fn run(ctx: &mut Ctx) -> RunResult {
-    run_deser(ctx)
+    match ctx.ch.weighted("cfg.world", &[2, 1, 1]) {
+        0 => run_deser(ctx),
+        1 => crate::worlds::e::run_c15(ctx),
+        _ => crate::worlds::f::run_c15(ctx),
+    }
 }
